@@ -961,7 +961,15 @@ def _buffer_flow(facts, g, bufdecl, entry, size, memo, reads, depth=0):
         if base in ('strcpy',) and args and is_buf(args[0]): return 'S'
         if base in ('strncat', 'strcat') and args and is_buf(args[0]): return st if st in ('S', 'Z') else st
         hit = [i for i, a in enumerate(args) if is_buf(a)]
-        if not hit: return st
+        if not hit:
+            # a local closure that captured the buffer by reference (`auto matches = [&buffer](const char *s) { return strcmp(s, buffer) == 0; }`):
+            # its string reads of the buffer happen here, in the state the buffer is in at the call
+            if node.callee_in_root and depth < 4:
+                for t in facts.resolve(node):
+                    if t.d.get('lambda'):
+                        for x in t.nodes():
+                            if x.k == 'call' and ((x.calleeq or '').split('::')[-1] in READERS) and any(is_buf(a) for a in x.ns('args')): reads.append((x, st, t))
+            return st
         if base in READERS or (node.calleeq or '').startswith('std::basic_string'):
             reads.append((node, st, g)); return st
         if node.callee_in_root and depth < 4:
